@@ -169,6 +169,9 @@ def run(ctx):
                         out["violations"].append(bad)
                 # spec terms use the same variable vocabulary: send the union (unknown names are ignored by the driver)
                 senv = dict(env)
+                # the documented form has its own inputs, whatever the code's body happens to mention
+                senv.update({"nu2": (desc["delta_c"] / np.asarray(desc["sigma"], float)) ** 2, "m": np.asarray(desc["m"], float), "n_eff": np.asarray(desc["n_eff"], float),
+                             "z": desc["z"], "delta_c": desc["delta_c"]})
                 for extra in ("isnone:mass_definition", "delta_halo"):
                     if extra not in senv:
                         senv[extra] = 0.0 if extra.startswith("isnone") else desc["delta_halo"]
